@@ -343,14 +343,27 @@ class CFG:
             elif k is False:
                 f2[bn] = 'falsy-bool'
 
-    def _reach_from_edge(self, x, y, lab, explicit_only=False):
+    def when_must_pass(self, atom, value, through, to=None, explicit_only=True):
+        """on every edge where `atom` is known to be `value`: no feasible path from there to `to` (default: the normal exit)
+        avoids all the nodes `through`.  Returns (number of such edges, holds)."""
+        to = set(to if to is not None else [self.exit])
+        edges = self.cond_edges(atom, value)
+        ok = True
+        for (x, y, lab) in edges:
+            if y in set(through):
+                continue
+            r = self._reach_from_edge(x, y, lab, explicit_only, avoid_nodes=set(through))
+            ok = ok and not (to & r)
+        return len(edges), ok
+
+    def _reach_from_edge(self, x, y, lab, explicit_only=False, avoid_nodes=()):
         """nodes feasibly reachable after taking the edge x -(lab)-> y (what that edge establishes about boolean locals is kept)"""
         s = self.stmt[x]
         test_e = s[1] if (isinstance(s, tuple) and s[0] == "COND") else (s.test if isinstance(s, (ast.If, ast.While)) else None)
         f = {}
         if test_e is not None and lab in ('T', 'F'):
             self._learn(test_e, lab, f)
-        return {n for (n, tag) in self._feasible([(y, frozenset(f.items()))], set(), (), explicit_only, None)}
+        return {n for (n, tag) in self._feasible([(y, frozenset(f.items()))], set(avoid_nodes), (), explicit_only, None)}
 
     def _feasible(self, init, avoid_nodes, avoid_edges, explicit_only, via):
         """like reach(), but paths contradicting what is known about local sentinels are dropped: after `x = None`
